@@ -27,7 +27,7 @@ func (c15) Rule() string {
 	return "each case generates a schema with defaults of every JSON type at depth 0-3 of properties (with / without required at each level, defaults on object and non-object subschemas, object defaults that themselves lack nested defaults, " +
 		"defaults that are invalid for their subschema, and defaults elsewhere: items, allOf, $defs) and 10 instances (objects with any subset of the properties present, non-objects at any position), each applied in a random Go representation " +
 		"(map[string]any, typed maps such as map[string]int / map[string]map[string]any, named key types, pointers). Laws checked on the observed before/after pair by a recursive JUSTIFICATION CHECKER: " +
-		"(L1) applying again changes nothing; (L2) every value present before is present and equal after (objects may only gain keys); (L3) no key is added that its schema node lists in required; " +
+		"(L0) two documents completed with one Resolved do not alias (the first result is scribbled over before the second application); (L1) applying again changes nothing; (L2) every value present before is present and equal after (objects may only gain keys); (L3) no key is added that its schema node lists in required; " +
 		"(L4) every added key is declared in properties and its value is the declared default, completed only by recursively justified additions, or - without a default - a non-empty object whose keys are all justified. " +
 		"(L5) Resolve with ValidateDefaults succeeds exactly when the reference model accepts every default of the root tree against the subschema that declares it. " +
 		"Non-trivial: a key was inserted at depth >= 1 or a required/default conflict is present; distinct by (max insertion depth, required pattern, default types, representation kinds)."
@@ -321,6 +321,30 @@ func (c15) Run(c *fw.Case) {
 			}
 		}
 	}
+	// two documents completed with the same Resolved must not alias each other: fill A, scribble over everything that
+	// was inserted into A, then fill an identical B - B must come out as A did before the scribbling
+	{
+		imA := g.instance(doc, 0)
+		var a, b any = gen.Canonical(gen.Text(imA)), gen.Canonical(gen.Text(imA))
+		var ea, eb error
+		if !c.CallChecked("ApplyDefaults", map[string]any{"schema": json.RawMessage(text), "instance": gen.Text(imA)}, func() { ea = rs.ApplyDefaults(&a) }) {
+			return
+		}
+		if ea == nil {
+			before, _ := modelForm(a)
+			scribble(a)
+			if !c.CallChecked("ApplyDefaults", map[string]any{"schema": json.RawMessage(text), "instance": gen.Text(imA)}, func() { eb = rs.ApplyDefaults(&b) }) {
+				return
+			}
+			after, merr := modelForm(b)
+			c.Eval(1)
+			if eb != nil || merr != nil || canon.Must(after) != canon.Must(before) {
+				c.Violation("two documents completed with one Resolved share inserted values: changing the first document's inserted defaults changed what the second one received",
+					map[string]any{"schema": json.RawMessage(text), "instance": json.RawMessage(gen.Text(imA)), "first_result": json.RawMessage(gen.Text(before)), "second_result_after_mutating_the_first": json.RawMessage(gen.Text(after)), "error": fmt.Sprint(eb)})
+				return
+			}
+		}
+	}
 	for k := 0; k < 10; k++ {
 		im := g.instance(doc, 0)
 		var tr gen.ReprTrace
@@ -401,4 +425,30 @@ func onlyGrows(before, after any, path string) string {
 		}
 	}
 	return ""
+}
+
+// scribble overwrites every container reachable from v in place (maps get a new key and their values replaced, slices get
+// their elements replaced): whoever aliases these containers will see it.
+func scribble(v any) {
+	switch x := v.(type) {
+	case map[string]any:
+		for k, e := range x {
+			scribble(e)
+			switch e.(type) {
+			case map[string]any, []any:
+			default:
+				x[k] = "SCRIBBLED"
+			}
+		}
+		x["zz-scribble"] = true
+	case []any:
+		for i, e := range x {
+			scribble(e)
+			switch e.(type) {
+			case map[string]any, []any:
+			default:
+				x[i] = "SCRIBBLED"
+			}
+		}
+	}
 }
